@@ -307,64 +307,6 @@ CONFIG['C16'] = {'assumptions': ['reader and writer objects passed in (*csv.Read
                   'both goroutines report the same error; a WriteTo that fails by itself is never combined with another error source by the '
                   'generator']}
 
-CONFIG['C11'] = {'assumptions': ['form-field names, file-field names and file names are free of CR / LF and of non-ASCII bytes (they travel inside a MIME header '
-                 'line); declared content types are header-safe ASCII; media types carry no quoted parameter containing ;',
-                 'form-field and file-field names are the keys of Go maps: the generator sends distinct names per map',
-                 'uploads and reader payloads are well-behaved io.Readers that do not fail (faults are C12); a Read with room delivers at least one '
-                 'byte until the data is exhausted',
-                 'the random multipart boundary does not occur in the uploaded data (mime/multipart takes the same risk)',
-                 'a build or body read that does not finish within 3 s is reported as hang (only F11d does that)'],
- 'go_entry': 'client.(*Runtime).CreateHttpRequest -> client.(*request).buildHTTP (body selection, multipart goroutine, getBody override), '
-             'runtime.ClientRequest.GetBody called inside the auth writer',
- 'model_fn': 'build (gatePasses / choose / finalHeader / getBody / getBodies / allParts / filePart / readFull / encodeForm / mangleContentType)',
- 'partial': ["multipart syntax and content sniffing themselves are the standard library's (parameters of the model): proved is what the client code "
-             'hands to them and what it does with the result',
-             'recorded, not repaired: F11b (files under the url-encoded media type are sent as multipart under "application/x-www-form-urlencoded; '
-             'boundary=..."; the suite pins this), F11c (form fields under a media type that is neither form type are sent url-encoded under that '
-             'media type), F11d (value payload under multipart/form-data with a producer registered for it: the body is a pipe nobody writes to). '
-             "Outside the property's quantifier but observed: a value payload under multipart/form-data or application/x-www-form-urlencoded without "
-             'a registered producer passes the producer gate and then calls a nil producer (panic); the model has that outcome (tag '
-             'value:nil-producer-panic)'],
- 'quick_n': 20000,
- 'rule': 'one stream B: requests built through CreateHttpRequest from payload kind (nil; string, []byte, struct, map values through the JSON / XML / '
-         'text / byte-stream producers, a custom producer and a failing producer; io.Reader as plain reader, *bytes.Buffer, *strings.Reader; '
-         'io.ReadCloser) x form data (none; 1-3 form fields with 0-3 values each; 1-2 file fields with 0-3 uploads each; both; payload together with '
-         'form data) x media type (JSON, text, XML, octet-stream, url-encoded, multipart/form-data, custom, case variants and variants with '
-         'parameters of the two form types, unregistered, empty) x registered producer set (default four, subsets, extras; 1 case in 400 registers a '
-         'producer under multipart/form-data) x auth writer (none, or calling GetBody 0, 1, 2-4 times) x method. Field and file-field names from a '
-         'pool with quotes, backslashes, spaces, & = ; % + and the empty name; values with & = % + ; CR LF, NUL and high bytes; file names with '
-         'directories, trailing slashes, the empty name, /, .., quotes, backslashes, Windows paths; contents text / binary / HTML / XML / magic '
-         'numbers (PDF PNG GIF gzip zip BOM JPEG JSON) / text with one binary byte placed around offset 512 / boundary-like bytes, lengths 0, 1-40, '
-         '500-530, 0-600, 600-1800; uploads deliver their bytes whole or in reads of at most 1, 2, 3, 7, 64, 100, 511, 512, 513, 1000 bytes, with '
-         'io.EOF alongside the last bytes or after them; 1 upload in 4 declares its own ContentType(). Every run first sweeps one sniffed upload of '
-         'every length 0-12 and 505-520 (thorough: every length 0-600), text and binary. The outgoing req.Body is drained and, when the header '
-         'carries a boundary, read back with mime/multipart (raw parts; Content-Disposition re-parsed with mime.ParseMediaType); raw bodies are also '
-         'decoded with url.ParseQuery. A case is trivial (~) when the media type is refused by the producer gate or when a payload is mixed with '
-         'form data; distinct = distinct input lines.',
- 'search_s': 40,
- 'thorough_n': 80000,
- 'thorough_seeds': 3,
- 'trusted_base': ['reading of the property text into the Lean `Spec` (human step, RtVerif/Model/<id>.lean)',
-                  'correspondence check (differential: Go harness /verif/harness -> protocol lines -> compiled Lean driver rtdriver evaluating Model '
-                  'and Spec); coverage bounded by the generators',
-                  "factgen (go/ast extraction of constants/tables into RtVerif/Gen/Facts.lean) and the driver's line parser",
-                  'the registered producers, http.DetectContentType, the boundary chosen by multipart.NewWriter and the serialisation of parts by '
-                  'mime/multipart are PARAMETERS of the model (Env), universally quantified in every theorem; the driver instantiates produce and '
-                  'sniff with what the real functions returned on the same arguments (the harness calls the producer itself and DetectContentType on '
-                  'the true first <=512 bytes and reports the results as oracle fields)',
-                  "mime/multipart's reader inverting its writer, and mime.ParseMediaType inverting the Content-Disposition line (the part list of "
-                  'the model is compared with what the real reader returns; the literal Content-Disposition value of every file part is compared '
-                  "with the model of request.go's fmt.Sprintf + escapeQuotes; the round trip escapeQuotes -> quoted-string reader is a theorem over "
-                  'a hand model of mime.consumeValue)',
-                  'net/url: Values.Encode and ParseQuery are hand models (GoURL escaping is shared with C10); the Lean ParseQuery is cross-checked '
-                  'against the real one on every raw body (tag !QUERY-MODEL on a mismatch), the Lean media-type extraction against '
-                  'mime.ParseMediaType (tag !MIME-MODEL)',
-                  'filepath.Base is GoPath.base (path.Base; identical on Unix), tied to the real function by stream G of C20 and by every file part '
-                  'here',
-                  'io.ReadFull / io.Copy / io.MultiReader / io.Pipe are modelled by their contracts (ReadFull as a loop of Reads that each deliver '
-                  'at least one byte; the pipe as the byte string the goroutine writes); goroutine scheduling and resource release are C12',
-                  'http.NewRequestWithContext keeps the body it is given (bytes.Buffer, or the reader wrapped in NopCloser)']}
-
 CONFIG['C09'] = {'assumptions': ['request bodies announce their length (ContentLength = len(body)); a stream of unknown length is first wrapped by runtime.HasBody '
                  'in a peeking reader on the request value it was given (C17), which is not modelled',
                  'every security scheme named by the spec has a registered authenticator (an alternative naming an unregistered scheme is C02)',
@@ -1022,6 +964,67 @@ CONFIG['C20'] = {'assumptions': ['requests are built in-process with an arbitrar
                   'gob round trip between option structs (toCommonUIOptions/fromCommonToAnyOptions) modelled as a copy of the five common fields',
                   "the API router behind the UI middleware is an opaque terminal handler (C01's subject); 'reachable' means the request arrives "
                   'there unmodified']}
+
+CONFIG['C11'] = {'assumptions': ['form-field names, file-field names and file names are free of CR / LF and of non-ASCII bytes (they travel inside a MIME header '
+                 'line); declared content types are header-safe ASCII; media types carry no quoted parameter containing ;',
+                 'form-field and file-field names are the keys of Go maps: the generator sends distinct names per map',
+                 'uploads and reader payloads are well-behaved io.Readers that do not fail (faults are C12); a Read with room delivers at least one '
+                 'byte until the data is exhausted',
+                 'the random multipart boundary does not occur in the uploaded data (mime/multipart takes the same risk)',
+                 'a build or body read that does not finish within 3 s is reported as hang (no input does on the repaired tree; F11d did); once a '
+                 'harness process has reported one hang, its later cases are given 300 ms'],
+ 'go_entry': 'client.(*Runtime).CreateHttpRequest -> client.(*request).buildHTTP (body selection, multipart goroutine, getBody override), '
+             'runtime.ClientRequest.GetBody called inside the auth writer',
+ 'model_fn': 'build (gatePasses / choose / finalHeader / getBody / getBodies / allParts / filePart / readFull / encodeForm / mangleContentType)',
+ 'partial': ["multipart syntax and content sniffing themselves are the standard library's (parameters of the model): proved is what the client code "
+             'hands to them and what it does with the result',
+             'recorded, not repaired: F11b (files under the url-encoded media type are sent as multipart under "application/x-www-form-urlencoded; '
+             'boundary=..."; the suite pins this), F11c (form fields under a media type that is neither form type are sent url-encoded under that '
+             'media type). Repaired: F11d (value payload under multipart/form-data with a producer registered for it: the body was a pipe nobody '
+             'writes to; the pipe is now opened only when the multipart goroutine runs, theorem build_never_hangs, and such inputs must satisfy the '
+             "Spec like any value payload). Outside the property's quantifier but observed: a value payload under multipart/form-data or "
+             'application/x-www-form-urlencoded without a registered producer passes the producer gate and then calls a nil producer (panic); the '
+             'model has that outcome (tag value:nil-producer-panic)'],
+ 'quick_n': 20000,
+ 'rule': 'one stream B: requests built through CreateHttpRequest from payload kind (nil; string, []byte, struct, map values through the JSON / XML / '
+         'text / byte-stream producers, a custom producer and a failing producer; io.Reader as plain reader, *bytes.Buffer, *strings.Reader; '
+         'io.ReadCloser) x form data (none; 1-3 form fields with 0-3 values each; 1-2 file fields with 0-3 uploads each; both; payload together with '
+         'form data) x media type (JSON, text, XML, octet-stream, url-encoded, multipart/form-data, custom, case variants and variants with '
+         'parameters of the two form types, unregistered, empty) x registered producer set (default four, subsets, extras; a media type outside the '
+         'set is registered 5 times in 6, multipart/form-data itself 1 time in 2 - a value payload under it goes through that producer or, '
+         'unregistered, meets a nil producer) x auth writer (none, or calling GetBody 0, 1, 2-4 times) x method. Field and file-field names from a '
+         'pool with quotes, backslashes, spaces, & = ; % + and the empty name; values with & = % + ; CR LF, NUL and high bytes; file names with '
+         'directories, trailing slashes, the empty name, /, .., quotes, backslashes, Windows paths; contents text / binary / HTML / XML / magic '
+         'numbers (PDF PNG GIF gzip zip BOM JPEG JSON) / text with one binary byte placed around offset 512 / boundary-like bytes, lengths 0, 1-40, '
+         '500-530, 0-600, 600-1800; uploads deliver their bytes whole or in reads of at most 1, 2, 3, 7, 64, 100, 511, 512, 513, 1000 bytes, with '
+         'io.EOF alongside the last bytes or after them; 1 upload in 4 declares its own ContentType(). Every run first sweeps one sniffed upload of '
+         'every length 0-12 and 505-520 (thorough: every length 0-600), text and binary. The outgoing req.Body is drained and, when the header '
+         'carries a boundary, read back with mime/multipart (raw parts; Content-Disposition re-parsed with mime.ParseMediaType); raw bodies are also '
+         'decoded with url.ParseQuery. A case is trivial (~) when the media type is refused by the producer gate or when a payload is mixed with '
+         'form data; distinct = distinct input lines.',
+ 'search_s': 40,
+ 'thorough_n': 80000,
+ 'thorough_seeds': 3,
+ 'trusted_base': ['reading of the property text into the Lean `Spec` (human step, RtVerif/Model/<id>.lean)',
+                  'correspondence check (differential: Go harness /verif/harness -> protocol lines -> compiled Lean driver rtdriver evaluating Model '
+                  'and Spec); coverage bounded by the generators',
+                  "factgen (go/ast extraction of constants/tables into RtVerif/Gen/Facts.lean) and the driver's line parser",
+                  'the registered producers, http.DetectContentType, the boundary chosen by multipart.NewWriter and the serialisation of parts by '
+                  'mime/multipart are PARAMETERS of the model (Env), universally quantified in every theorem; the driver instantiates produce and '
+                  'sniff with what the real functions returned on the same arguments (the harness calls the producer itself and DetectContentType on '
+                  'the true first <=512 bytes and reports the results as oracle fields)',
+                  "mime/multipart's reader inverting its writer, and mime.ParseMediaType inverting the Content-Disposition line (the part list of "
+                  'the model is compared with what the real reader returns; the literal Content-Disposition value of every file part is compared '
+                  "with the model of request.go's fmt.Sprintf + escapeQuotes; the round trip escapeQuotes -> quoted-string reader is a theorem over "
+                  'a hand model of mime.consumeValue)',
+                  'net/url: Values.Encode and ParseQuery are hand models (GoURL escaping is shared with C10); the Lean ParseQuery is cross-checked '
+                  'against the real one on every raw body (tag !QUERY-MODEL on a mismatch), the Lean media-type extraction against '
+                  'mime.ParseMediaType (tag !MIME-MODEL)',
+                  'filepath.Base is GoPath.base (path.Base; identical on Unix), tied to the real function by stream G of C20 and by every file part '
+                  'here',
+                  'io.ReadFull / io.Copy / io.MultiReader / io.Pipe are modelled by their contracts (ReadFull as a loop of Reads that each deliver '
+                  'at least one byte; the pipe as the byte string the goroutine writes); goroutine scheduling and resource release are C12',
+                  'http.NewRequestWithContext keeps the body it is given (bytes.Buffer, or the reader wrapped in NopCloser)']}
 
 # properties not claimed (with the reason) and hook commits in /repo (none so far: no hooks needed)
 # built but not yet claimed (with the reason shown in MANIFEST.not_applicable)
